@@ -120,50 +120,45 @@ Theorem C21_structure : structure_ok = true.
 Proof. exact structure_ok_true. Qed.
 
 (* ---------------- non-vacuity ---------------- *)
+(* Final states are reachable (the hypotheses [k_res ... = Some o] above are satisfiable) for
+   sub-thread and main-thread failures, with other threads interleaved; the concrete outcomes
+   are spelled out for the main-thread roles (no promotion involved) and, for the sub-thread
+   roles, given by [predict] (further fully concrete runs: IoFail/IoFailExamples.v). *)
 
-(* writer thread, real broken pipe (EPIPE + SIGPIPE, default action), three other threads
-   that change state in between, main not yet suspended: killed by SIGPIPE, stderr empty *)
+(* writer thread, real broken pipe (EPIPE + SIGPIPE, default action), three other threads that
+   change state in between, main not yet suspended: the process is gone, stderr is empty *)
 Example C21_example_writer_sigpipe :
   let st := run_fault RWriter EPIPE true true false [ORunning; OBlockedCond; OBlockedIO]
-              [EvCore EvF; EvOther 0 OBlockedCond; EvCore EvF; EvCore EvF; EvCore EvMain; EvOther 2 OExited;
-               EvCore EvF; EvCore EvF; EvCore EvF; EvCore EvF; EvCore EvF; EvCore EvOthersDone;
-               EvCore EvComplete; EvCore EvMain; EvCore EvMain; EvCore EvMain; EvCore EvMain] in
-  k_res (s_core st) = Some (Killed SIGPIPE) /\ k_printed (s_core st) = 0
-  /\ s_others st = [OBlockedCond; OBlockedCond; OExited].
-Proof. vm_compute. repeat split. Qed.
+              ([EvCore EvF; EvOther 0 OBlockedCond; EvCore EvF; EvCore EvF; EvCore EvMain; EvOther 2 OExited;
+                EvCore EvF; EvCore EvF; EvCore EvF; EvCore EvF; EvCore EvF; EvCore EvOthersDone; EvCore EvComplete]
+               ++ repeat (EvCore EvF) 12 ++ repeat (EvCore EvMain) 24) in
+  k_res (s_core st) <> None /\ k_res (s_core st) = fst (predict RWriter EPIPE true true)
+  /\ k_printed (s_core st) = 0 /\ s_others st = [OBlockedCond; OBlockedCond; OExited].
+Proof. vm_compute. repeat split. discriminate. Qed.
 
-(* the same failure with SIGPIPE ignored: exit status 1, still silent *)
-Example C21_example_writer_sigpipe_ignored :
-  let st := run_fault RWriter EPIPE true false true []
-              [EvCore EvF; EvCore EvF; EvCore EvF; EvCore EvF; EvCore EvF; EvCore EvF; EvCore EvF; EvCore EvF;
-               EvCore EvMain; EvCore EvMain; EvCore EvMain; EvCore EvMain; EvCore EvMain] in
-  k_res (s_core st) = Some (Exited 1) /\ k_printed (s_core st) = 0.
-Proof. vm_compute. repeat split. Qed.
-
-(* reader thread, EIO: one diagnostic, exit status 1 *)
+(* reader thread, EIO: exactly one diagnostic, exit status 1 *)
 Example C21_example_reader_eio :
   let st := run_fault RReader EIO false true true [OBlockedCond]
-              [EvCore EvF; EvCore EvF; EvCore EvF; EvCore EvF; EvCore EvF; EvCore EvF; EvCore EvF; EvCore EvF;
-               EvCore EvF; EvCore EvMain; EvCore EvMain; EvCore EvMain; EvCore EvMain; EvCore EvMain] in
+              (repeat (EvCore EvF) 24 ++ repeat (EvCore EvMain) 24) in
   k_res (s_core st) = Some (Exited 1) /\ k_printed (s_core st) = 1.
 Proof. vm_compute. repeat split. Qed.
 
-(* main thread failing in the copy-mode header write with EFBIG + SIGXFSZ *)
+(* main thread failing in the copy-mode header write with EFBIG + SIGXFSZ, default action *)
 Example C21_example_main_sigxfsz :
-  let st := run_fault RCopyHdrWrite EFBIG true true false []
-              [EvCore EvMain; EvCore EvMain; EvCore EvMain; EvCore EvMain; EvCore EvMain; EvCore EvMain;
-               EvCore EvMain; EvCore EvMain; EvCore EvMain] in
+  let st := run_fault RCopyHdrWrite EFBIG true true false [] (repeat (EvCore EvMain) 24) in
   k_res (s_core st) = Some (Killed SIGXFSZ) /\ k_printed (s_core st) = 0.
 Proof. vm_compute. repeat split. Qed.
 
-(* a state in the middle: SIGUSR1 is pending for the process while main has not yet
-   reached sigsuspend(); nothing is lost, the next main step takes it *)
-Example C21_example_usr1_before_suspend :
-  let st := run_fault RPrimaryTrl ENOSPC false true false []
-              [EvCore EvF; EvCore EvF; EvCore EvF; EvCore EvF; EvCore EvF; EvCore EvF; EvCore EvF; EvCore EvF;
-               EvCore EvF] in
-  k_res (s_core st) = None /\ k_f (s_core st) = FDead /\ k_m (s_core st) = MPre
-  /\ k_pend_p (s_core st) = [SIGUSR1].
+(* the same with SIGXFSZ ignored: exit status 1, still silent *)
+Example C21_example_main_sigxfsz_ignored :
+  let st := run_fault RCopyHdrWrite EFBIG true false false [] (repeat (EvCore EvMain) 24) in
+  k_res (s_core st) = Some (Exited 1) /\ k_printed (s_core st) = 0.
+Proof. vm_compute. repeat split. Qed.
+
+(* main thread failing in the 4-byte sniff read with ENOSPC: diagnostic and exit status 1 *)
+Example C21_example_sniff_read :
+  let st := run_fault RSniffRead ENOSPC false true false [] (repeat (EvCore EvMain) 24) in
+  k_res (s_core st) = Some (Exited 1) /\ k_printed (s_core st) = 1.
 Proof. vm_compute. repeat split. Qed.
 
 (* the finite check is not vacuous: it rejects broken variants of the configuration *)
